@@ -288,6 +288,11 @@ func main() {
 		{"multi-line-comment-in-union-branch", "union ZqU {\n    1 -> struct ZqA {\n        /* line one\n           line two */\n        int32 x;\n    }\n    2 -> message ZqB {\n        /* l1\n\tl2 \n  l3 */\n        1 -> int32 y;\n        [deprecated(\"two\nlines\")]\n        2 -> string z;\n    }\n}\n"},
 		{"multi-line-comment-in-struct", "struct ZqS {\n    /* a\n       b */\n    int32 x; /* c\n d */\n    string y;\n}\n"},
 		{"zero-padded-indices", "message ZpM {\n    001 -> int32 a;\n    007 -> int32 b;\n    009 -> int32 c;\n    010 -> int32 d;\n    064 -> int32 e;\n    100 -> int32 f;\n    0255 -> int32 g;\n}\nunion ZpU {\n    008 -> struct ZpA {\n        int32 x;\n    }\n    010 -> struct ZpB {\n        int32 y;\n    }\n    0077 -> message ZpC {\n        01 -> int32 z;\n        017 -> int32 w;\n    }\n}\n"},
+		{"javadoc-comment-in-struct", "struct ZjS {\n\t/**\n\t * The horizontal position.\n\t */\n\tint32 x;\n    /*\n     * spaces\n     */\n\tint32 y; /* eol\n\t * star */\n\tint32 z;\n}\n"},
+		{"javadoc-comment-in-message", "message ZjM {\n\t/**\n\t * doc of a\n\t */\n\t1 -> int32 a;\n  /*\n   * doc of b\n   */\n\t2 -> string b;\n}\n"},
+		{"javadoc-comment-in-enum", "enum ZjE {\n\t/**\n\t * doc of A\n\t */\n\tA = 1;\n  /*\n   * doc of B\n   */\n\tB = 2;\n}\n"},
+		{"javadoc-comment-in-union", "union ZjU {\n\t/**\n\t * first branch\n\t */\n\t1 -> struct ZjA {\n\t\t/**\n\t\t * inside a branch struct\n\t\t */\n\t\tint32 x;\n\t}\n  /*\n   * second branch\n   */\n\t2 -> message ZjB {\n\t\t/**\n\t\t * inside a branch message\n\t\t */\n\t\t1 -> int32 y;\n\t}\n}\n"},
+		{"javadoc-comment-top-level", "/**\n * doc of the struct\n */\nstruct ZjT {\n\tint32 x;\n}\n/*\n\t* tab then star\n \t * blank tab blank star\n*/\nconst int32 zjK = 1;\n"},
 		{"field-then-block-then-line-comment", "struct ZqT {\n    int32 timeout; /* milliseconds */ // since v2\n    [deprecated(\"x\")] int32 old; // gone\n    string s; /* a */ /* b */\n}\n"},
 	} {
 		jobs = append(jobs, job{t.text, t.name, "as-is", "multi-line-token"})
